@@ -356,6 +356,12 @@ pub fn run(ctx: &Ctx) -> i32 {
         if f == Fmt::Yaml && i % 2 == 0 {
             bytes = corpus::boundary_yaml_text(i / 6).into_bytes();
             acc.count("class_boundary_straddling_yaml");
+        } else if i % 4 == 1 {
+            // one heavy document: strings and keys whose length sits on the 8- / 16- / 32-bit header boundaries
+            // (254..256, 65 533..65 537 bytes), thousands of entries, tens of KiB of multi-byte text
+            let d = crate::gen::gen_heavy_doc(&mut rng);
+            bytes = crate::spell::spell(f, &d, &mut rng, &mut feats, true);
+            acc.count("class_heavy_document");
         }
         if bytes.len() >= 2 << 20 {
             return;
@@ -452,7 +458,7 @@ pub fn run(ctx: &Ctx) -> i32 {
     let cli = crate::par::run(n_cli, 1, |i, acc| cli_sources(seed, i, acc));
     acc.merge(cli);
     let rule = format!(
-        "{} mixed corpus inputs (valid single/multi-document streams of every format, mutants, splices, seeds, random bytes/tokens) x relevant source selections x 4 targets x schedules [all, one, fixed(n), 2 random, boundary cuts], plus EVERY token sequence of length 1..={} over each format's alphabet x [own format, detect] x 2 targets x [all, one], plus {} large valid streams (50-1500 documents, up to 2 MiB) under 7 schedules incl. fixed(8191/8192/8193), plus single TOML documents of 1 000 000 .. 2 MiB - 70 bytes (named and detected, 3 schedules), plus documents nested to half of, just below, at and just beyond each format's depth limit (arrays, maps, mixtures; MessagePack also with 16/32-bit headers and wide collections, and at 100..1000), plus every hand-written seed input (degenerate streams, rare syntax forms, used directives, CR / CRLF line breaks) x [own format, detect] x 4 targets x 4 schedules; plus {} command-line comparisons (the release binary given the same 1-8000 documents as a file operand, on a pipe, as a regular file on standard input at offset 0 and behind bytes already consumed, and through a FIFO; sizes to above 1 MiB); each evaluation is one (slice run, reader run) pair; distinct non-trivial = distinct non-empty input byte strings",
+        "{} mixed corpus inputs (valid single/multi-document streams of every format, mutants, splices, seeds, random bytes/tokens) x relevant source selections x 4 targets x schedules [all, one, fixed(n), 2 random, boundary cuts], plus EVERY token sequence of length 1..={} over each format's alphabet x [own format, detect] x 2 targets x [all, one], plus {} large valid streams (50-1500 documents, up to 2 MiB; every fourth one heavy document instead: strings and keys of 254..256 and 65 533..65 537 bytes, thousands of entries) under 7 schedules incl. fixed(8191/8192/8193), plus single TOML documents of 1 000 000 .. 2 MiB - 70 bytes (named and detected, 3 schedules), plus documents nested to half of, just below, at and just beyond each format's depth limit (arrays, maps, mixtures; MessagePack also with 16/32-bit headers and wide collections, and at 100..1000), plus every hand-written seed input (degenerate streams, rare syntax forms, used directives, CR / CRLF line breaks) x [own format, detect] x 4 targets x 4 schedules; plus {} command-line comparisons (the release binary given the same 1-8000 documents as a file operand, on a pipe, as a regular file on standard input at offset 0 and behind bytes already consumed, and through a FIFO; sizes to above 1 MiB); each evaluation is one (slice run, reader run) pair; distinct non-trivial = distinct non-empty input byte strings",
         n_mixed, max_tok, n_large, n_cli
     );
     let mut extra = serde_json::Map::new();
